@@ -55,6 +55,9 @@ structure GAttr where
   anyObj : Bool
   /-- `attr.is_xsi_type` -/
   xsiType : Bool := false
+  /-- `attr.is_tokens` (`restrictions.tokens`): the value is a whitespace separated list (NMTOKENS / IDREFS /
+  ENTITIES, `xs:list`) held in ONE attribute / element; with `isList` it makes up `Attr.is_factory` -/
+  tokens : Bool := false
 deriving DecidableEq, Repr
 
 /-- `ElementBase.default_value`: the `default`, else the `fixed` value -/
@@ -90,7 +93,8 @@ def GAttr.isList (a : GAttr) : Bool := a.max > 1
 def shouldResetRequired (a : GAttr) : Bool :=
   !a.isAttribute && a.default.isNone && a.anyObj && !a.isList
 
-/-- `SanitizeAttributesDefaultValue.should_reset_default` -/
+/-- `SanitizeAttributesDefaultValue.should_reset_default`: `attr.is_list` (several occurrences), NOT
+`attr.is_factory` — the declared default of a tokens attr is one value and is kept -/
 def shouldResetDefault (a : GAttr) : Bool :=
   a.default.isSome && (a.xsiType || a.isList || (!a.isAttribute && a.min = 0))
 
@@ -117,7 +121,8 @@ deriving DecidableEq, Repr
 def fieldOf (a : GAttr) : Option Field :=
   if a.max = 0 then none else
   some { init := !a.fixed,
-         default := if a.isList then .listFactory else
+         default := if a.isList || (a.tokens && a.default.isNone) then .listFactory else
+           -- a tokens default is rendered as `default_factory=lambda: [t1, t2]`: the declared tokens
            match a.default with
            | some s => .value s
            | none => if a.min = 0 then .none else .missing }
